@@ -479,6 +479,10 @@ class FnRun:
             del st[k]
         for k in [k for k in st if k[0] == "cond" and (k[1][0] == local or any(kk[0] == local for m in st[k] if m for kk in m))]:
             del st[k]
+        for k in [k for k in st if k[0] == "salias" and (k[1][0] == local or st[k][0] == local)]:
+            del st[k]
+        for k in [k for k in st if k[0] == "variant" and k[1][0] == local and (k[1][1][:len(proj)] == proj or proj[:len(k[1][1])] == k[1][1])]:
+            del st[k]
         if not proj:
             st.pop(("ptr", local), None)
 
@@ -550,13 +554,20 @@ class FnRun:
                 # aggregate copy: move tracked sub-keys
                 sl, sp = self.norm(st, spl["l"], [pe(e) for e in spl["p"]])
                 sub = {kk[1][len(sp):]: v for kk, v in st.items() if isinstance(kk[0], int) and kk[0] == sl and kk[1][:len(sp)] == sp}
+                vsub = {kk[1][1][len(sp):]: v for kk, v in st.items() if kk[0] == "variant" and kk[1][0] == sl and kk[1][1][:len(sp)] == sp}
                 ptr = st.get(("ptr", sl)) if not sp else None
                 ndl, ndp = self.norm(st, dl, dp)
                 self.kill(st, ndl, ndp)
                 for rest, v in sub.items():
                     st[(ndl, tuple(ndp) + rest)] = v
+                for rest, v in vsub.items():
+                    st[("variant", (ndl, tuple(ndp) + rest))] = v
                 if ptr is not None and not ndp:
                     st[("ptr", ndl)] = ptr
+                if (ndl, tuple(ndp)) != (sl, tuple(sp)):
+                    # the copy of a struct handed to a bool helper (`if self.is_outside(p)`): what is learnt about a
+                    # field of the copy holds for the same field of the original
+                    st[("salias", (ndl, tuple(ndp)))] = (sl, tuple(sp))
                 return
             v = self.operand(st, src)
             sk0 = self.operand_key(st, src) if spl is not None else None
@@ -662,6 +673,7 @@ class FnRun:
                 adt = self.prog.adts.get(rv["adt"])
                 multi = (adt is not None and adt["kind"] == "enum") or rv["adt"] in ("core::option::Option", "core::result::Result")
                 if multi:
+                    st[("variant", (ndl, pre))] = frozenset([rv["variant"]])
                     pre = pre + (("down", rv["variant"]),)
             for i, o in enumerate(rv["ops"]):
                 v = self.operand(st, o)
@@ -1018,6 +1030,17 @@ class FnRun:
         return out
 
     def propagate_alias(self, st, key, depth=0):
+        if key in st and depth < 4:
+            for k in [k for k in st if k[0] == "salias"]:
+                (l, p), (tl, tp) = k[1], st[k]
+                if key[0] == l and tuple(key[1][:len(p)]) == tuple(p):
+                    tgt = (tl, tuple(tp) + tuple(key[1][len(p):]))
+                    cur = st.get(tgt) or self.default(*tgt)
+                    if cur is not None:
+                        m = meet(cur, st[key])
+                        if m is not None and m != st.get(tgt):
+                            st[tgt] = m
+                            self.propagate_alias(st, tgt, depth + 1)
         a = st.get(("alias", key))
         if a is not None and key in st:
             cur = st.get(a) or self.default(*a)
@@ -1046,6 +1069,7 @@ class FnRun:
             if mm is None:
                 return False
             st[k] = mm
+            self.propagate_alias(st, k)
         return True
 
     def refine_by_rel(self, st, key, truth):
@@ -1116,7 +1140,21 @@ class FnRun:
                     if s["k"] == "assign":
                         self.assign(st, s, e)
                 cur = {k[1]: v for k, v in st.items() if isinstance(k[0], int) and k[0] == 0}
-                sub = cur if sub is None else {k: join(v, cur[k]) for k, v in sub.items() if k in cur}
+                curv = {k[1][1]: v for k, v in st.items() if k[0] == "variant" and k[1][0] == 0}
+                if sub is None:
+                    sub, subv = cur, curv
+                else:
+                    def other_variant(key, variants):
+                        for i, e in enumerate(key):
+                            if isinstance(e, tuple) and e[0] == "down":
+                                ov = variants.get(tuple(key[:i]))
+                                return ov is not None and e[1] not in ov
+                        return False
+                    nsub = {k: join(v, cur[k]) for k, v in sub.items() if k in cur}
+                    nsub.update({k: v for k, v in sub.items() if k not in cur and other_variant(k, curv)})
+                    nsub.update({k: v for k, v in cur.items() if k not in sub and other_variant(k, subv)})
+                    subv = {k: v | curv[k] for k, v in subv.items() if k in curv}
+                    sub = nsub
                 v = st.get((0, ()))
                 if v is None:
                     ret_unknown = True
@@ -1183,8 +1221,21 @@ class FnRun:
                     rng = TYPE_RANGE.get(ty, (-INF, INF)) if is_int(ty) else (-INF, INF)
                     j = (va[0] if j[0] >= va[0] else rng[0], va[1] if j[1] <= va[1] else rng[1])
                 out[k] = j
+            elif k[0] == "variant":
+                out[k] = va | vb
             elif va == vb:
                 out[k] = va
+        # the payload of one variant is known on the edges that built that variant; an edge that built another variant
+        # says nothing against it (`Some((x, y))` with x < WIDTH on one edge, `None` on the other)
+        for x, y in ((a, b), (b, a)):
+            for k, v in x.items():
+                if isinstance(k[0], int) and k not in y and k not in out:
+                    for i, e in enumerate(k[1]):
+                        if isinstance(e, tuple) and e[0] == "down":
+                            ov = y.get(("variant", (k[0], tuple(k[1][:i]))))
+                            if ov is not None and e[1] not in ov:
+                                out[k] = v
+                            break
         if not widen:
             self._flag_partitions(a, b, out)
         return out
